@@ -38,6 +38,8 @@ type op struct {
 	N   int      `json:"n,omitempty"`
 	S   string   `json:"s,omitempty"`
 	TLS *tlsSpec `json:"tls,omitempty"`
+	H   int      `json:"h,omitempty"` // req / fork: which name of the origin the URL uses (0 = localhost, 1 = 127.0.0.1)
+	C   bool     `json:"c,omitempty"` // req: the request carries Connection: close
 	F   *op      `json:"f,omitempty"` // fork: what is done to the throw-away clone before its request (nil = nothing)
 }
 
@@ -123,13 +125,13 @@ func unstableErr(err error) bool {
 // of cloning - and NOT read back from the client object; server name defaulted to the URL host as every HTTP
 // stack does), accept this origin and be accepted by it?  Independent reference for "acceptable under the
 // client's settings" (stdlib only, no req code, no model).
-func refAcceptable(p *pki, want *tlsSpec, o *origin) (ok bool, wantSNI string) {
+func refAcceptable(p *pki, want *tlsSpec, o *origin, host string) (ok bool, wantSNI string) {
 	cfg := p.tlsConfig(want)
 	if cfg == nil {
 		cfg = &tls.Config{}
 	}
 	if cfg.ServerName == "" {
-		cfg.ServerName = "localhost"
+		cfg.ServerName = host
 	}
 	wantSNI = cfg.ServerName
 	cfg.NextProtos = nil
@@ -290,7 +292,6 @@ func runCell(p *pki, o *origin, cl cell, timeout time.Duration) (res cellResult)
 			x.GetTransport().VerifCloseHTTP3()
 		}
 	}()
-	u, _ := url.Parse(o.url())
 	hadV3 := false
 	violT := func(tag, sig, what string) {
 		res.Viol = append(res.Viol, violation{Sig: sig + "/" + cl.Shape + "/" + o.spec.Name + tag, What: what, At: len(res.Obs)})
@@ -353,7 +354,17 @@ func runCell(p *pki, o *origin, cl cell, timeout time.Duration) (res cellResult)
 	// one GET with client c (+ waiting for the Alt-Svc goroutine it may have started) and the oracle
 	// force = the version the operations applied so far have forced on this client (tracked here from the
 	// operation sequence, a clone inheriting its original's: NOT read back from the client)
-	doReq := func(c *req.Client, hadV3 *bool, w want, tag string) (rec, bg obsRec) {
+	doReq := func(c *req.Client, hadV3 *bool, w want, tag string, hi int, closeReq bool) (rec, bg obsRec) {
+		host := hostNames[hi]
+		u, _ := url.Parse(o.urlH(hi))
+		// crypto/tls sends no server_name for an IP literal: the listeners (and the origin's handler) then see "",
+		// recorded as the literal - the name the certificate was verified against
+		normSNI := func(s string) string {
+			if s == "" && hi == 1 {
+				return host
+			}
+			return s
+		}
 		force := w.force
 		viol := func(sig, what string) { violT(tag, sig, what) }
 		if got := c.GetTransport().VerifForceHTTPVersion(); got != force {
@@ -362,15 +373,20 @@ func runCell(p *pki, o *origin, cl cell, timeout time.Duration) (res cellResult)
 		refOK, wantSNI := true, ""     // under the client's settings (QUIC; TCP unless the caller supplied his own TLS)
 		refTCP, sniTCP := true, ""     // under the configuration that governs TCP connections
 		if o.spec.HTTPS {
-			refOK, wantSNI = refAcceptable(p, w.tls, o)
+			refOK, wantSNI = refAcceptable(p, w.tls, o, host)
 			refTCP, sniTCP = refOK, wantSNI
 			if w.tcp() != w.tls {
-				refTCP, sniTCP = refAcceptable(p, w.tcp(), o)
+				refTCP, sniTCP = refAcceptable(p, w.tcp(), o, host)
 			}
 		}
 		altBefore := c.GetTransport().VerifAltSvcState(u)
 		m := o.mark()
-		resp, err := c.R().Get(o.url())
+		cm := o.clearMark()
+		rq := c.R()
+		if closeReq {
+			rq.SetHeader("Connection", "close")
+		}
+		resp, err := rq.Get(o.urlH(hi))
 		rec = obsRec{Kind: "req"}
 		var originProto, sni, cn string
 		switch {
@@ -385,7 +401,7 @@ func runCell(p *pki, o *origin, cl cell, timeout time.Duration) (res cellResult)
 			rec.Outcome = "Cleartext"
 			rec.Detail = resp.Proto + " 400 from the TLS listener"
 		default:
-			originProto, sni, cn = resp.Header.Get("X-Proto"), resp.Header.Get("X-Sni"), resp.Header.Get("X-Cn")
+			originProto, sni, cn = resp.Header.Get("X-Proto"), normSNI(resp.Header.Get("X-Sni")), resp.Header.Get("X-Cn")
 			switch resp.Proto {
 			case "HTTP/1.1":
 				rec.Outcome = "V1"
@@ -422,6 +438,7 @@ func runCell(p *pki, o *origin, cl cell, timeout time.Duration) (res cellResult)
 		}
 		retried := 0
 		for _, h := range o.since(m) {
+			h.SNI = normSNI(h.SNI)
 			if bgStarted && h.Quic {
 				bg.Hellos = append(bg.Hellos, h)
 			} else if n := len(rec.Hellos); n > 0 && err != nil && sameHello(rec.Hellos[n-1], h) {
@@ -461,6 +478,16 @@ func runCell(p *pki, o *origin, cl cell, timeout time.Duration) (res cellResult)
 		if ok && !o.spec.HTTPS {
 			if rec.Outcome == "V3" || (rec.Outcome == "V2" && !w.h2c) {
 				viol("plain-http-used-"+used, "plain HTTP request served over HTTP/"+used+" without h2c being enabled")
+			}
+		}
+		if o.spec.HTTPS {
+			// listener-level: the TLS port received something that is not a TLS record during this request
+			if cs := o.clearSince(cm); len(cs) > 0 && rec.Outcome != "Cleartext" {
+				what := "request"
+				if closeReq {
+					what = "Connection: close request"
+				}
+				viol("https-in-cleartext/wire", fmt.Sprintf("the %s was written in clear to the TLS port (first bytes %s): no handshake, no certificate checked; the client reported %s", what, cs[0], rec.Outcome))
 			}
 		}
 		if rec.Outcome == "Cleartext" {
@@ -507,7 +534,7 @@ func runCell(p *pki, o *origin, cl cell, timeout time.Duration) (res cellResult)
 				panic("clone: not a configuration op: " + x.F.K)
 			}
 		case "req":
-			rec, bg := doReq(c, &hadV3, w, "")
+			rec, bg := doReq(c, &hadV3, w, "", x.H, x.C)
 			res.Obs = append(res.Obs, rec, bg)
 			continue
 		case "fork":
@@ -521,7 +548,7 @@ func runCell(p *pki, o *origin, cl cell, timeout time.Duration) (res cellResult)
 			if x.F != nil {
 				w2 = w.after(*x.F)
 			}
-			rec, bg := doReq(c2, &h, w2, "@fork")
+			rec, bg := doReq(c2, &h, w2, "@fork", x.H, false)
 			res.Obs = append(res.Obs, obsRec{Kind: "fork", Outcome: rec.Outcome, Hellos: rec.Hellos, BgHellos: bg.Hellos, Alt: bg.Alt, Detail: rec.Detail})
 			c2.GetTransport().CloseIdleConnections()
 			continue
@@ -565,36 +592,45 @@ func coqTLS(t *tlsSpec) string {
 
 func coqOps(ops []op) string {
 	var out []string
+	add := func(h int, xs ...string) {
+		for _, x := range xs {
+			out = append(out, fmt.Sprintf("(%s, %s)", hk.CoqBool(h == 1), x))
+		}
+	}
 	for _, x := range ops {
 		switch x.K {
 		case "settls":
-			out = append(out, "OSetTLS "+coqTLS(x.TLS))
+			add(0, "OSetTLS "+coqTLS(x.TLS))
 		case "skip":
-			out = append(out, "OSkip "+hk.CoqBool(x.B))
+			add(0, "OSkip "+hk.CoqBool(x.B))
 		case "root":
-			out = append(out, "OAddRoot "+hk.CoqN(uint64(x.N)))
+			add(0, "OAddRoot "+hk.CoqN(uint64(x.N)))
 		case "cert":
-			out = append(out, "OAddCert "+hk.CoqN(uint64(x.N)))
+			add(0, "OAddCert "+hk.CoqN(uint64(x.N)))
 		case "sname":
-			out = append(out, "OSName "+hk.CoqStr(x.S))
+			add(0, "OSName "+hk.CoqStr(x.S))
 		case "force":
-			out = append(out, "OForce "+[]string{"FNone", "FH1", "FH2", "FH3"}[x.N])
+			add(0, "OForce "+[]string{"FNone", "FH1", "FH2", "FH3"}[x.N])
 		case "h3":
-			out = append(out, "OEnableH3")
+			add(0, "OEnableH3")
 		case "h2c":
-			out = append(out, "OH2C "+hk.CoqBool(x.B))
+			add(0, "OH2C "+hk.CoqBool(x.B))
 		case "dialtls":
-			out = append(out, "ODialTLS "+coqTLS(x.TLS))
+			add(0, "ODialTLS "+coqTLS(x.TLS))
 		case "handshake":
-			out = append(out, "OHandshake "+coqTLS(x.TLS))
+			add(0, "OHandshake "+coqTLS(x.TLS))
 		case "clone":
-			out = append(out, "OClone")
+			add(0, "OClone")
 		case "closeidle":
-			out = append(out, "OCloseIdle")
+			add(0, "OCloseIdle")
 		case "req":
-			out = append(out, "OReq", "OBg")
+			if x.C {
+				add(x.H, "OReqClose", "OBg")
+			} else {
+				add(x.H, "OReq", "OBg")
+			}
 		case "fork":
-			out = append(out, "OFork "+coqFork(x.F))
+			add(x.H, "OFork "+coqFork(x.F))
 		}
 	}
 	return hk.CoqList(out)
@@ -675,9 +711,9 @@ func coqEnv(s srvSpec) string {
 		need = "(Some 3%N)"
 	}
 	return fmt.Sprintf("(mkEnv %s %s (mkSrv %s %s %s %s 1%%N %s %s))", hk.CoqBool(s.HTTPS), hk.CoqStr("localhost"),
-		hk.CoqStrList(s.ALPN), hk.CoqBool(s.H3), hk.CoqBool(s.AltSvc), hk.CoqBool(s.H2C), hk.CoqStrList(serverSANs), need)
+		hk.CoqStrList(s.ALPN), hk.CoqBool(s.H3), hk.CoqBool(s.AltSvc), hk.CoqBool(s.H2C), hk.CoqStrList(s.sans()), need)
 }
 
 func coqCase(cl cell, os []obsRec) string {
-	return fmt.Sprintf("(mkCase %s %s %s)", coqEnv(cl.Spec), coqOps(cl.Ops), coqObs(os))
+	return fmt.Sprintf("(mkCase %s %s %s %s)", coqEnv(cl.Spec), hk.CoqStr(hostNames[1]), coqOps(cl.Ops), coqObs(os))
 }
